@@ -26,6 +26,9 @@ func allRules() []*Rule {
 		ruleR24(),
 		ruleR25(),
 		ruleR26(),
+		ruleR27(),
+		ruleR28(),
+		ruleR29(),
 		ruleR21(),
 		ruleR22(),
 		ruleR23(),
